@@ -20,12 +20,14 @@ pub struct Resv {
     pub masks: Vec<u8>,
     pub with_close: bool,
     pub with_interest: bool,
+    pub repeat_bitfield: bool,
 }
 
 #[derive(Default, Clone)]
 pub struct PeerMon {
     pub advertised: Vec<bool>,
     pub spoke: bool,
+    pub bitfields: usize,
     pub outstanding: Vec<(u32, u32, u32)>,
     pub scanned: usize,
     pub closed: bool,
@@ -40,7 +42,7 @@ pub struct Mon {
 impl Scenario for Resv {
     type Mon = Mon;
     fn name(&self) -> String {
-        format!("resv-p{}-n{}-{}-m{:?}{}{}", self.peers, self.pieces, if self.gated { "gated" } else { "direct" }, self.masks, if self.with_close { "-close" } else { "" }, if self.with_interest { "-int" } else { "" })
+        format!("resv-p{}-n{}-{}-m{:?}{}{}", self.peers, self.pieces, if self.gated { "gated" } else { "direct" }, self.masks, if self.with_close { "-close" } else { "" }, if self.with_interest { "-int" } else { "" }) + if self.repeat_bitfield { "-rebf" } else { "" }
     }
     fn cfg(&self) -> WorldCfg {
         WorldCfg { torrent: Torrent::new("t", 5, &[("f", 5 * self.pieces)], true), have: vec![], peers: (0..self.peers).map(|k| peer_cfg(k, k % 2 == 0)).collect(), gated: self.gated }
@@ -64,7 +66,9 @@ impl Scenario for Resv {
                 continue;
             }
             let pm = &mon.p[k];
-            if !pm.spoke {
+            // BEP3 peers send the bitfield first and once; the connection task forwards it whenever
+            // it arrives, so repeated / late bitfields are command sequences the manager can see
+            if !pm.spoke || (self.repeat_bitfield && pm.bitfields < 2) {
                 for m in &self.masks {
                     out.push(format!("B{}:{}", k, m));
                 }
@@ -137,6 +141,7 @@ impl Scenario for Resv {
             match head {
                 "B" => {
                     mon.p[k].spoke = true;
+                    mon.p[k].bitfields += 1;
                     for i in 0..3.min(self.pieces) {
                         mon.p[k].advertised[i] = arg.unwrap() >> i & 1 == 1;
                     }
@@ -190,7 +195,7 @@ impl Scenario for Resv {
         None
     }
     fn key(&self, w: &World, mon: &Mon) -> String {
-        let pm: Vec<String> = mon.p.iter().map(|p| format!("{:?}/{}/{:?}/{}", p.advertised.iter().map(|b| *b as u8).collect::<Vec<_>>(), p.spoke, p.outstanding, p.closed)).collect();
+        let pm: Vec<String> = mon.p.iter().map(|p| format!("{:?}/{}/{}/{:?}/{}", p.advertised.iter().map(|b| *b as u8).collect::<Vec<_>>(), p.spoke, p.bitfields.min(2), p.outstanding, p.closed)).collect();
         // byte counters do not influence anything without timer events
         let k = w.default_key();
         let k = strip_counters(&k);
@@ -254,15 +259,19 @@ pub fn strip_counters(k: &str) -> String {
 pub fn scenarios(thorough: bool) -> Vec<(Resv, usize)> {
     if thorough {
         vec![
-            (Resv { peers: 2, pieces: 3, gated: false, masks: vec![7, 1, 3], with_close: true, with_interest: true }, 9),
-            (Resv { peers: 2, pieces: 13, gated: false, masks: vec![7, 1], with_close: true, with_interest: false }, 9),
-            (Resv { peers: 3, pieces: 3, gated: false, masks: vec![7], with_close: false, with_interest: false }, 8),
-            (Resv { peers: 2, pieces: 3, gated: true, masks: vec![7, 3], with_close: false, with_interest: false }, 9),
+            (Resv { peers: 2, pieces: 3, gated: false, masks: vec![7, 1, 3], with_close: true, with_interest: true, repeat_bitfield: false }, 9),
+            (Resv { peers: 2, pieces: 13, gated: false, masks: vec![7, 1], with_close: true, with_interest: false, repeat_bitfield: false }, 9),
+            (Resv { peers: 3, pieces: 3, gated: false, masks: vec![7], with_close: false, with_interest: false, repeat_bitfield: false }, 8),
+            (Resv { peers: 2, pieces: 3, gated: true, masks: vec![7, 3], with_close: false, with_interest: false, repeat_bitfield: false }, 9),
+            (Resv { peers: 2, pieces: 13, gated: false, masks: vec![1, 3, 6], with_close: false, with_interest: false, repeat_bitfield: true }, 7),
+            (Resv { peers: 2, pieces: 3, gated: false, masks: vec![1, 6], with_close: false, with_interest: true, repeat_bitfield: true }, 8),
         ]
     } else {
         vec![
-            (Resv { peers: 2, pieces: 3, gated: false, masks: vec![7, 1], with_close: true, with_interest: false }, 6),
-            (Resv { peers: 2, pieces: 13, gated: false, masks: vec![7], with_close: false, with_interest: false }, 6),
+            (Resv { peers: 2, pieces: 3, gated: false, masks: vec![7, 1], with_close: true, with_interest: false, repeat_bitfield: false }, 6),
+            (Resv { peers: 2, pieces: 13, gated: false, masks: vec![7], with_close: false, with_interest: false, repeat_bitfield: false }, 6),
+            (Resv { peers: 2, pieces: 13, gated: false, masks: vec![1, 3], with_close: false, with_interest: false, repeat_bitfield: true }, 5),
+            (Resv { peers: 1, pieces: 3, gated: false, masks: vec![1, 6], with_close: false, with_interest: true, repeat_bitfield: true }, 7),
         ]
     }
 }
@@ -279,7 +288,7 @@ pub fn run(ctx: &Ctx) -> Outcome {
     let mut o = Outcome::new("model_checking");
     explore::stats_outcome(&total, &mut o);
     o.set("scenarios", Value::Array(per));
-    o.set("rule", json!("events per peer k: B<k>:<mask> bitfield over the first three pieces (only as first message), H<k>:<i> have, C<k> choke, U<k> unchoke (repeatable), I<k>/N<k> interest, P<k> correct answer to the oldest outstanding request (also while choking), X<k> disconnect, L<k> release of a held-back broadcast (gated scenarios); single-block pieces; torrents of 3 pieces (end game) and 13 pieces of which only 3 are ever advertised (no end game); every Fisher-Yates tie-break of the chooser is a choice point; states = canonical snapshots of manager + all connection tasks + piece files + monitor (rate counters dropped: no timer event)."));
+    o.set("rule", json!("events per peer k: B<k>:<mask> bitfield over the first three pieces (first message; in the -rebf scenarios also repeated/late, at most twice), H<k>:<i> have, C<k> choke, U<k> unchoke (repeatable), I<k>/N<k> interest, P<k> correct answer to the oldest outstanding request (also while choking), X<k> disconnect, L<k> release of a held-back broadcast (gated scenarios); single-block pieces; torrents of 3 pieces (end game) and 13 pieces of which only 3 are ever advertised (no end game); every Fisher-Yates tie-break of the chooser is a choice point; states = canonical snapshots of manager + all connection tasks + piece files + monitor (rate counters dropped: no timer event)."));
     o.assume("invariants are evaluated in quiescent states (every queued command handled); reduction argument in DESIGN.md 0.2");
     o
 }
